@@ -503,3 +503,20 @@ Lemma plural_select_rule : forall {F R V} (form_eqb : F -> F -> bool) (category 
   category r1 = category r2 ->
   plural_select F R form_eqb category r1 forms other = plural_select F R form_eqb category r2 forms other.
 Proof. intros F R V form_eqb category r1 r2 forms other H. unfold plural_select. rewrite H. reflexivity. Qed.
+
+(** ** literal keys: every flavour applies the same printing function *)
+Lemma literals_agree : forall (show_lit : lit -> str) e l,
+  eval_view e (lw_into_view show_lit l) = show_lit l
+  /\ lw_build_string show_lit l = show_lit l
+  /\ lw_build_display show_lit l = show_lit l
+  /\ lw_inner show_lit l = show_lit l
+  /\ eval_view e (lit_token_view show_lit l) = show_lit l
+  /\ eval_string e (lit_token_string show_lit l) = show_lit l
+  /\ eval_display e (lit_token_string show_lit l) = show_lit l.
+Proof. intros show_lit e l. repeat split; reflexivity. Qed.
+
+(** the generators of this model are the instance [show_lit := lit_display] *)
+Lemma literal_tokens_instance : forall l,
+  gen_view (PLit l) = lit_token_view lit_display l /\ gen_string (PLit l) = lit_token_string lit_display l
+  /\ lit_into_view l = lw_into_view lit_display l.
+Proof. intros l. repeat split; reflexivity. Qed.
